@@ -270,7 +270,11 @@ def gen_parallel(rng, tier):
         case["batch"] = 1
         best = max(adds, key=lambda x: x[1])
         for a in [best] + [rng.choice(adds) for _ in range(rng.randint(0, 2))]:
-            case["adds"].append([list(a[0]), a[1] - rng.choice([0.5, 1.0, 3.25])])
+            taken = {x[1] for x in case["adds"]}
+            new_obj = a[1] - rng.choice([0.5, 1.0, 3.25])
+            while new_obj in taken:          # equal objectives would make the sorted line order ambiguous
+                new_obj -= 0.0625
+            case["adds"].append([list(a[0]), new_obj])
         keep = {k: opts[k] for k in ("sort", "cbar", "order", "labels") if k in opts}
         case["opts"] = gen_common_opts(rng, [x[1] for x in case["adds"]], allow_transpose=False)
         case["opts"].update(keep)
